@@ -19,7 +19,7 @@ ACT = dict(RET=0, THROW_INT=1, THROW_STD=2, NONE=3, RETREF=4, RETCAP=5)
 MOCK = dict(M=0, MV=1, W=2)
 (OP_CREATE, OP_RELEASE, OP_CALL, OP_DESTROY_MOCK, OP_MOVE_MOCK, OP_DESTROY_SEQ, OP_MOVE_SEQ, OP_NEW_WATCHED, OP_DELETE_WATCHED,
  OP_COPY_WATCHED, OP_MOVECONS_WATCHED, OP_ASSIGN_WATCHED, OP_MOVEASSIGN_WATCHED, OP_MONITOR, OP_PUSH_TRACER, OP_POP_TRACER,
- OP_SET_REPORTER) = range(17)
+ OP_SET_REPORTER, OP_ARM_REPORTER) = range(18)
 
 F_KIND, F_HANDLER, F_REPCOUNT, F_REPCULPRIT, F_REPDETAIL, F_OKREP, F_TRACE, F_CLOG, F_QEXP, F_QSEQ, F_MISC = [1 << i for i in range(11)]
 F_REPORTS = F_REPCOUNT | F_REPCULPRIT | F_REPDETAIL
@@ -390,6 +390,8 @@ def c04_alphabet(g, slots):
         A.append(g.release(slot))
     A += [g.call(0, F1, 1), g.call(0, F1, 0), g.call(2, F1, 1), g.call(2, F1, 0), g.call(3, F1, 1), g.call(0, F2, 1, 1), g.call(0, F2, 0, 1)]
     A += [g.op(OP_DESTROY_MOCK, obj=0), g.op(OP_DESTROY_MOCK, obj=2), g.op(OP_DESTROY_MOCK, obj=3), g.op(OP_MOVE_MOCK, obj=2, k1=3)]
+    # the reporter is user code: one that tears the mock down when the first non-fatal report arrives
+    A += [g.op(OP_ARM_REPORTER, obj=0), g.op(OP_ARM_REPORTER, obj=2)]
     return A
 
 
